@@ -121,3 +121,21 @@ def _npmean(ex, fv_, args, kwargs, fr, node):
     if lst.ty.args[0].kind != "fl" or kwargs:
         raise Unsupported("numpy.mean other than the mean of a list of floats")
     return vfl(_MEANF(larrs(ex, lst)[0], llen(ex, lst)))
+
+
+@handler("objdict.update")
+def _objdict_update(ex, fv_, args, kwargs, fr, node):
+    """obj.__dict__.update(kwargs) with the statically known extra keyword arguments: sets those attributes"""
+    from . import spec as _spec
+    d = fv_.bound
+    src_ = args[0]
+    if src_.ty.kind != "kwdict":
+        raise Unsupported("__dict__.update with something other than the function's own **kwargs")
+    cls = d.meta["cls"]
+    for k, v in src_.meta["items"].items():
+        ft = _spec.field_type(cls, k)
+        if ft is None:
+            raise Unsupported(f"__dict__.update: field {cls}.{k} has no declared type")
+        ex.wr(d.t, k, v, ft)
+        ex.wr(d.t, f"hasattr${k}", vbool(True))
+    return vnone()
